@@ -13,7 +13,7 @@ from ..gfi import distribution
 from ..gfi.common import Obs
 from ..program import AnalysisError
 from ..rules import Arms, is_call, is_mcall, mcalls, mentions
-from ..terms import C, Evaluator, G, P, is_t, mk_proj, show, subterms
+from ..terms import C, Evaluator, G, P, is_t, mk_cmp, mk_proj, scenarios, show, subterms
 
 TFP = "distributions/tensorflow_probability/__init__.py"
 DM = "distributions/distribution.py"
@@ -61,10 +61,16 @@ def run(chk, prog):
     _, ed = prog.func("exact_density", DM)
     kw = prog.nested(ed, "kwargle")
     rk = Evaluator(prog).eval_fn(kw, dm)
-    got = Arms()
-    for conds, ret in rk.returns:
-        got["packed" if any(p for t, p in conds) else "plain"] = ret
+    # the packed form is recognised by BOTH tests (a 2-sequence whose second item is a dict); every other outcome of the tests passes the arguments through
     F_, A0, AR, KWA = P("f"), P("a0"), P("args"), P("kwargs")
+    is_len2 = lambda t: t == mk_cmp("==", ("call", G("len"), (AR,), ()), C(2))
+    is_dict1 = lambda t: is_t(t, "isinst") and t[1] == mk_proj(AR, 1) and t[2] == "dict"
+    flat = lambda conds: [(x, p) for t, p in conds for x in (t[2] if is_t(t, "bool") and t[1] == "and" and p else (t,)) for p in (p,)]
+    got = Arms()
+    for conds, ret in scenarios(rk.ret):
+        fc = flat(conds)
+        packed = any(p and is_len2(t) for t, p in fc) and any(p and is_dict1(t) for t, p in fc)
+        got["packed" if packed else "plain"] = ret
     okp = got.get("packed") == ("call", F_, (A0, ("star", mk_proj(AR, 0))), (("**", mk_proj(AR, 1)),)) and got.get("plain") == ("call", F_, (A0, ("star", AR)), (("**", KWA),))
     chk.require(okp, "SIBLING-DENSITY", "exact_density.kwargle", "(args, kwargs) pair is unpacked; otherwise passed through", derived={k: show(v) for k, v in got.items()}.__str__(),
                 expected="f(a0, *args[0], **args[1]) for the packed form, f(a0, *args, **kwargs) otherwise", where=f"{dm.rel}:{kw.lineno}")
